@@ -250,6 +250,19 @@ func enumPathsX(fn *ssa.Function, start ssa.Instruction, isEvent func(ssa.Instru
 		}
 		for i := from; i < len(b.Instrs); i++ {
 			in := b.Instrs[i]
+			if isEvent != nil && isEvent(in) {
+				st.Events = append(st.Events, in)
+			}
+			if isStop != nil && isStop(in) {
+				// (the stop sees the facts as they are on arrival, before this instruction executes again)
+				budget--
+				if budget < 0 {
+					ok = false
+					return
+				}
+				atExit(pathExit{State: st, Stop: in})
+				return
+			}
 			if visits[b] >= 2 {
 				// second dynamic instance of this instruction: facts about the
 				// previous instance of its value (and of values computed from it) are stale
@@ -258,18 +271,6 @@ func enumPathsX(fn *ssa.Function, start ssa.Instruction, isEvent func(ssa.Instru
 						forget(st, v)
 					}
 				}
-			}
-			if isEvent != nil && isEvent(in) {
-				st.Events = append(st.Events, in)
-			}
-			if isStop != nil && isStop(in) {
-				budget--
-				if budget < 0 {
-					ok = false
-					return
-				}
-				atExit(pathExit{State: st, Stop: in})
-				return
 			}
 			switch t := in.(type) {
 			case *ssa.Return, *ssa.Panic:
@@ -747,4 +748,61 @@ func sameFieldLoadCond(st *pathState, cond ssa.Value) (bool, bool) {
 		}
 	}
 	return false, false
+}
+
+// provInter: provenance that looks through module helpers: a root that is the
+// (i-th) result of a static call into the module is replaced by the origins
+// of what the callee returns there; callee parameters map back to the call's
+// arguments. Depth-bounded; constant nil results are skipped.
+func provInter(v ssa.Value, depth int) []ssa.Value {
+	var out []ssa.Value
+	for _, root := range provenance(v, provOpts{}) {
+		var call *ssa.Call
+		idx := 0
+		switch x := root.(type) {
+		case *ssa.Extract:
+			if c, ok := x.Tuple.(*ssa.Call); ok {
+				call, idx = c, x.Index
+			}
+		case *ssa.Call:
+			call = x
+		}
+		if call == nil || depth > 3 {
+			out = append(out, root)
+			continue
+		}
+		callee := call.Call.StaticCallee()
+		if callee == nil || !inModule(callee) || len(callee.Blocks) == 0 {
+			out = append(out, root)
+			continue
+		}
+		n := 0
+		for _, b := range callee.Blocks {
+			ret, ok := b.Instrs[len(b.Instrs)-1].(*ssa.Return)
+			if !ok || idx >= len(ret.Results) || isConstNil(ret.Results[idx]) {
+				continue
+			}
+			for _, r2 := range provInter(ret.Results[idx], depth+1) {
+				if p, ok := r2.(*ssa.Parameter); ok {
+					mapped := false
+					for i, cp := range callee.Params {
+						if cp == p && i < len(call.Call.Args) {
+							out = append(out, provInter(call.Call.Args[i], depth+1)...)
+							mapped = true
+						}
+					}
+					if mapped {
+						n++
+						continue
+					}
+				}
+				out = append(out, r2)
+				n++
+			}
+		}
+		if n == 0 {
+			out = append(out, root)
+		}
+	}
+	return out
 }
